@@ -188,7 +188,18 @@ func TestEngineQuery(t *testing.T) {
 		return append(append([]byte{}, cpcabi.Erc20CpcInfo.ABI.Methods["transfer"].ID...), mustPack(cpcabi.Erc20CpcInfo.ABI.Methods["transfer"].Inputs.Pack(to, big.NewInt(amt)))...)
 	}
 	mk := func() call {
-		switch r.Intn(9) {
+		switch r.Intn(13) {
+		case 9: // no call data, the recipient has no code — but it executes and charges gas: a standard precompile
+			a := common.BytesToAddress([]byte{byte(2 + r.Intn(3))}) // sha256, ripemd160, identity
+			return call{"dataless-std-precompile", &a, nil, int64(r.Intn(2)), false, nil}
+		case 10: // data to a standard precompile
+			a := common.BytesToAddress([]byte{byte(2 + 2*r.Intn(2))})
+			return call{"std-precompile", &a, make([]byte, 1+r.Intn(70)), 0, true, nil}
+		case 11: // a plain value transfer to an account without code
+			a := c.wallets[2+r.Intn(3)].GetEthAddress()
+			return call{"plain-transfer", &a, nil, int64(1 + r.Intn(9)), false, nil}
+		case 12: // no call data to a contract: its code still runs
+			return call{"dataless-contract", &gassy, nil, int64(r.Intn(2)), false, nil}
 		case 0:
 			return call{"storer-set", &storer, []byte{1}, 0, true, nil}
 		case 1:
